@@ -26,7 +26,7 @@ static FCase decode(Src &s) {
     int nm = s.prob(1, 2) ? 2 : 1;
     for (int m = 0; m < nm; m++) {
         std::vector<UnitRef> units; std::string t;
-        int nu = (int) s.weighted({2, 3, 3, 2, 1, 1}) + 1;
+        int nu = s.prob(1, 400) ? (int) s.range(257, 300) : (int) s.weighted({2, 3, 3, 2, 1, 1}) + 1;   // now and then more units than 8 bits count
         for (int u = 0; u < nu; u++) {
             UnitRef r; r.entry = s.prob(1, 8) ? -1 : (int) s.range(0, (uint64_t) ne - 1); r.badParam = false; r.undefinedQuery = s.coin();
             std::string h;
@@ -61,6 +61,7 @@ static std::string describe(const FCase &c) {
 
 static std::string runCase(const FCase &c, bool *nt = nullptr, std::vector<std::string> *labels = nullptr) {
     InstCfg k; k.bufLen = 256; k.queueLen = 64; k.heapLen = 4096;
+    for (auto &t : c.texts) if (t.size() + 8 > k.bufLen) { k.bufLen = t.size() + 8; k.queueLen = 640; k.heapLen = 16384; }
     for (size_t i = 0; i < c.entries.size(); i++) {
         const Entry &e = c.entries[i];
         Cmd cmd; cmd.pattern = fmt("%s%zu%s", e.query ? "Q" : "C", i, e.query ? "?" : "");
